@@ -671,41 +671,81 @@ def check_local_allocs(ctx, unit, fns, rule="O1.alloc-escapes"):
 # ---- O3: allocate / deallocate size agreement ----------------------------------------------------
 
 def check_size_agreement(ctx, unit, classes, rule="O3.size-agreement"):
+    """Sizes are compared as polynomials.  In the allocation size, a local or (folded-helper) parameter is followed to what
+    it was computed from; a value that the same function stores into a field of *this stands for that field (the capacity
+    that is recorded next to the buffer).  In the deallocation size, fields stand for themselves."""
+    from .poly import Poly, to_poly
     ctx.rule(rule, "the size passed to deallocate for a buffer field is the size it was allocated with (allocation size "
              "expression with the capacity local replaced by the field it is stored in)", len(classes))
     for cls in classes:
         for rec in recs_of(unit, cls):
             fns = cls_fns(unit, rec["qn"])
-            # allocation size expressions per buffer field, with locals replaced by the fields they end up in
             alloc_sz = {}
-            for f in fns:
+
+            def size_poly(f, e, stored):
                 inits = RA.local_inits(f)
-                # local -> field it is assigned to (this.F = local)
-                l2f = {}
+
+                def leaf(x, depth=0):
+                    x0 = x.strip()
+                    # a value that is stored into a field of *this stands for that field
+                    if x0.kind == "DeclRefExpr" and x0.d["d"] in stored:
+                        return Poly.sym("this." + stored[x0.d["d"]])
+                    x1 = std_unwrap(x0)
+                    if x1.id != x0.id:
+                        if x1.kind == "DeclRefExpr" and x1.d["d"] in stored:
+                            return Poly.sym("this." + stored[x1.d["d"]])
+                        return to_poly(x1, lambda y: leaf(y, depth + 1)) if depth < 10 else None
+                    if x1.kind == "DeclRefExpr" and x1.get("local") and x1.d["d"] in inits and not RA._reassigned(f, x1.d["d"]) and depth < 10:
+                        return to_poly(inits[x1.d["d"]], lambda y: leaf(y, depth + 1))
+                    if x1.kind == "UnaryExprOrTypeTraitExpr":
+                        c = x1.cv()
+                        return Poly.const(c) if c is not None else Poly.sym("sizeof(%s)" % x1.get("argt"))
+                    if x1.kind in ("ImplicitCastExpr", "CStyleCastExpr", "CXXStaticCastExpr", "ParenExpr", "CXXFunctionalCastExpr") and x1.children:
+                        return to_poly(x1.children[0], lambda y: leaf(y, depth))
+                    p_ = path(x1)
+                    if p_:
+                        return Poly.sym(".".join(t.split("#")[0] for t in p_))
+                    return Poly.sym("e:" + canon(x1))
+                return to_poly(e, leaf)
+            for f in fns:
+                # value (local / parameter of a folded helper) -> field of *this it is stored into
+                stored = {}
                 for n in f.events():
                     w = write_of(n)
                     if w and w[0] and len(w[0]) == 2 and w[0][0] == "this" and w[1] is not None:
-                        v = w[1].strip()
-                        if v.kind == "DeclRefExpr" and v.get("local"):
-                            l2f[v.d["d"]] = "this.%s" % w[0][1]
+                        v0 = w[1].strip()
+                        for v in (v0, std_unwrap(v0)):
+                            if v.kind == "DeclRefExpr" and v.get("local"):
+                                stored[v.d["d"]] = w[0][1]
                 for n in f.events():
                     if n.kind == "CXXMemberCallExpr" and n.callee and n.callee["n"] == "allocate" and n.callee.get("cls") == "wit::Alloc":
-                        # which field receives it?
                         c, p = climb(f, n)
                         fld = None
                         if p is not None and p.kind == "BinaryOperator" and p.op == "=":
                             lp = path(p.children[0])
                             if lp and len(lp) == 2 and lp[0] == "this":
                                 fld = lp[1]
-                        if fld is None:
-                            for x in f.all_nodes():
-                                if x.kind == "DeclStmt":
-                                    for d in x.get("decls", []):
-                                        if d.get("init") == c.id and d["d"] in l2f:
-                                            fld = l2f[d["d"]].split(".", 1)[1]
+                        if fld is None and p is not None and p.kind == "DeclStmt":
+                            for d in p.get("decls", []):
+                                if d.get("init") == c.id:
+                                    # the local itself, or a local it is handed on to (returned by a folded helper, copied)
+                                    names, grew = {d["d"]}, True
+                                    while grew:
+                                        grew = False
+                                        for d2, ini in RA.local_inits(f).items():
+                                            v2 = std_unwrap(ini)
+                                            if d2 not in names and v2.kind == "DeclRefExpr" and v2.d["d"] in names:
+                                                names.add(d2); grew = True
+                                    for nm in names:
+                                        if nm in stored:
+                                            fld = stored[nm]
+                        if fld is None and p is not None and p.kind == "ParamBind" and p.d["d"] in stored:
+                            fld = stored[p.d["d"]]
                         if fld is None:
                             continue
-                        alloc_sz.setdefault(fld, set()).add(canon(n.args[0], l2f))
+                        sp = size_poly(f, n.args[0], {k: v for k, v in stored.items() if v != fld})
+                        if sp is not None:
+                            alloc_sz.setdefault(fld, []).append(sp)
             cnt = 0
             for f in fns:
                 inits = RA.local_inits(f)
@@ -715,17 +755,16 @@ def check_size_agreement(ctx, unit, classes, rule="O3.size-agreement"):
                         tp = path(a) or path(n.args[0])
                         fld = tp[1] if tp and len(tp) >= 2 and tp[0] == "this" else None
                         if fld is None:
-                            # container = _get_container() style alias: attribute to the only buffer field
                             cands = [k for k in alloc_sz]
                             fld = cands[0] if len(cands) == 1 else None
                         if fld is None or fld not in alloc_sz:
                             continue
                         cnt += 1
-                        sz = canon(n.args[1])
-                        ok = sz in alloc_sz[fld]
+                        sz = size_poly(f, n.args[1], {})
+                        ok = sz is not None and any(sz == a_ for a_ in alloc_sz[fld])
                         ctx.inst(rule, "%s::%s: deallocate(%s) #%d" % (cls, f.name, fld, cnt), ok, n.loc,
                                  "deallocate size %s; allocation sizes recorded for %s: %s (instantiation %s)" % (
-                                     sz, fld, sorted(alloc_sz[fld]), rec["qn"]), f)
+                                     sz, fld, sorted({str(a_) for a_ in alloc_sz[fld]}), rec["qn"]), f)
             if cnt == 0:
                 ctx.broken("%s: no deallocate site with a size found (anchor vanished)" % rec["qn"])
 
@@ -1744,14 +1783,17 @@ def check_move_through_reference_member(ctx, unit, fns, rule="R.move-through-ref
 
 # ---- O: growth must not invalidate the argument it is about to copy --------------------------------------------------
 
-def check_grow_then_read_arg(ctx, unit, classes, rule="O.arg-survives-growth"):
+def check_grow_then_read_arg(ctx, unit, classes, rule="O.arg-survives-growth", elem_types=(), min_inst=None):
     """push/emplace/resize take their argument by reference.  The caller may pass a reference to an element of the same
     container (v.push(v[0]), s.push(s.top())): if the member first lets a helper relocate the elements and release the old
     buffer, and only then constructs the new element from the argument, it reads a destroyed object in freed storage.
     (std::vector guarantees this use.)"""
     ctx.rule(rule, "a member that takes an element / constructor arguments by reference does not read them after a call, on *this, of a "
-             "helper that may destroy the elements and release the buffer (the argument may alias an element)", len(classes))
+             "helper that may destroy the elements and release the buffer (the argument may alias an element)",
+             len(classes) if min_inst is None else min_inst)
     for cls in classes:
+        if not recs_of(unit, cls):
+            raise AnalysisBroken("anchor vanished: record %s" % cls)
         for rec in recs_of(unit, cls):
             fns = cls_fns(unit, rec["qn"])
             # members that may end the lifetime of elements: they free a block or destroy elements explicitly
@@ -1782,11 +1824,22 @@ def check_grow_then_read_arg(ctx, unit, classes, rule="O.arg-survives-growth"):
                            for n in f.events()):
                         may.add(f.did)
                         grew = True
-            for f in fns:
+            n_decided = 0
+            n_pub = len([f for f in fns if f.kind not in ("ctor", "dtor") and f.get("access") != "private"])
+            for f in fns + [None]:
+                if f is None:
+                    if not n_decided:
+                        # nothing of this instantiation takes an element by reference and relocates: say so (the rule has
+                        # its firing instances on the vector classes and in the mutant corpus)
+                        ctx.inst(rule, rec["qn"] + " (all members)", True, rec.get("loc", ""),
+                                 "%d public members, %d may release the buffer; none of them takes an element or a container of its "
+                                 "own class by reference and relocates before reading it" % (n_pub, len(may)), None)
+                    continue
                 if f.kind in ("ctor", "dtor") or f.get("access") == "private":
                     continue
                 refp = {p["d"]: p for p in f.params() if p["t"].rstrip().endswith("&") and (
-                    (p.get("rt") or "") == ELEM or p.get("collapsing"))}
+                    (p.get("rt") or "") == ELEM or p.get("collapsing")
+                    or p["t"].replace("const ", "").rstrip("& ").strip() in elem_types)}
                 # an assignment-like member that takes another container of its own class by reference: the source may be
                 # *this (v = v, rows[i] = rows[perm[i]]); it must be read before anything of *this is destroyed, unless
                 # the member has established that the two are different objects
@@ -1818,6 +1871,7 @@ def check_grow_then_read_arg(ctx, unit, classes, rule="O.arg-survives-growth"):
                                 if n.d["d"] in same and distinct_known(n):
                                     continue
                                 bad.append((n, r))
+                n_decided += 1
                 ctx.inst(rule, f.sig, not bad, f.loc,
                          ("argument `%s` is read at %s after %s at %s may have destroyed or moved from the elements (or released the old buffer)" % (
                              refp[bad[0][0].d["d"]]["n"], bad[0][0].loc, (bad[0][1].callee["n"] + "()") if bad[0][1].callee else "the explicit destructor call",
@@ -1946,3 +2000,117 @@ def _is_tparam(v):
     while x is not None and x.kind in ("ImplicitCastExpr", "ParenExpr") and x.children and hops < 6:
         x, hops = x.children[0], hops + 1
     return x is not None and x.kind == "SubstNonTypeTemplateParmExpr"
+
+
+# ---- member initialisers read only what is already initialised -----------------------------------------------------
+
+def init_reads_uninitialised(f, order):
+    """[(CtorInit node, field read, why)]: a member initialiser whose expression reads (not merely takes the address of) the
+    member it initialises, or a member of the same object that is declared -- hence initialised -- later."""
+    out = []
+    for n in f.events():
+        if n.kind != "CtorInit" or not n.get("field") or n.get("init") is None or n.d.get("inlined"):
+            continue
+        me = n.get("field")
+        init = f.node(n.get("init"))
+        skip = set()
+        for x in init.walk():
+            if (x.kind == "UnaryOperator" and x.op == "&") or x.kind == "UnaryExprOrTypeTraitExpr":
+                for y in x.walk():
+                    skip.add(y.id)
+        for x in init.walk():
+            if x.id in skip or x.kind != "MemberExpr" or x.get("mk") != "Field" or not x.children:
+                continue
+            b = x.children[0].strip()
+            if b.kind != "CXXThisExpr":
+                continue
+            if x.get("m") == me and (x.get("md") is None or n.get("md") is None or x.get("md") == n.get("md")):
+                out.append((n, x.get("m"), "itself"))
+            elif me in order and x.get("m") in order and order.index(x.get("m")) > order.index(me):
+                out.append((n, x.get("m"), "%s, which is declared (and so initialised) after %s" % (x.get("m"), me)))
+    return out
+
+
+def check_init_reads(ctx, unit, classes, rule="O.init-reads-initialised"):
+    ctx.rule(rule, "no member initialiser reads the member it initialises or a member declared after it (such a read sees an "
+             "object that has not been constructed yet: a comparator, hasher or allocator initialised from itself is lost)", len(classes))
+    probe = [f for f in unit.functions if f.d.get("kind") == "ctor" and "SelfInitProbe" in f.uq]
+    if not probe or not init_reads_uninitialised(probe[0], ["a", "b"]):
+        raise AnalysisBroken("positive example wit::SelfInitProbe is not recognised (member initialised from itself)")
+    for cls in classes:
+        ctors = [f for f in unit.functions if f.d.get("kind") == "ctor" and ((f.owner_cls or "") == cls or (f.owner_cls or "").startswith(cls + "::")
+                                                                           or (cls.endswith("::") and (f.owner_cls or "").startswith(cls)))]
+        if not ctors:
+            raise AnalysisBroken("anchor vanished: no constructor of %s in unit" % cls)
+        orders = {}
+        for r in unit.records:
+            orders.setdefault(r["uq"], [fl["n"] for fl in r["fields"]])
+        bad = []
+        n_init = 0
+        for f in ctors:
+            n_init += sum(1 for n in f.events() if n.kind == "CtorInit" and n.get("field") and n.get("init") is not None)
+            for n, fld, why in init_reads_uninitialised(f, orders.get(f.owner_cls, [])):
+                bad.append((n.loc, "%s: the initialiser of %s reads %s" % (f.owner_cls.split("::")[-1], n.get("field"), why)))
+        ctx.inst(rule, cls.rstrip(":"), not bad, bad[0][0] if bad else ctors[0].loc,
+                 "; ".join(sorted(set(b[1] for b in bad))[:3]) if bad else
+                 "%d member initialisers in %d constructors read only parameters and earlier members" % (n_init, len(ctors)), None)
+
+
+# ---- a container owns its function objects --------------------------------------------------------------------------
+
+def check_members_by_value(ctx, unit, classes, rule="W.members-owned", min_fields=2):
+    """A container keeps its own copy of the function objects and allocators it was built with (hasher, comparator, allocator):
+    none of its data members is a reference to an object of the caller, whose later change or death would silently change how
+    stored elements are found."""
+    ctx.rule(rule, "no data member of the container is a reference: the hasher / comparator / allocator handed to the constructor "
+             "is copied, so the container keeps finding its elements whatever happens to the caller's object", len(classes))
+    for cls in classes:
+        recs = [r for r in unit.records if r["uq"] == cls]
+        if not recs:
+            raise AnalysisBroken("anchor vanished: record %s" % cls)
+        nf = sum(len(r["fields"]) for r in recs)
+        if nf < min_fields:
+            raise AnalysisBroken("anchor vanished: data members of %s (found %d)" % (cls, nf))
+        bad = sorted({"%s is declared %s" % (fl["n"], fl["t"]) for r in recs for fl in r["fields"] if (fl.get("t") or "").rstrip().endswith("&")})
+        ctx.inst(rule, cls, not bad, recs[0].get("loc", ""), "; ".join(bad[:3]) if bad else
+                 "%d data members in %d instantiation(s), none of reference type" % (nf, len(recs)), None)
+
+
+# ---- the holder lets go before it destroys ------------------------------------------------------------------------------
+
+def check_detach_before_destroy(ctx, unit, classes, rule="O9.detach-before-destroy"):
+    """reset() and the assignments of an owning pointer destroy the old object through a local copy taken after (or while) the
+    field was given its new value -- never through the field itself: T's destructor may reach the holder again (a node that
+    resets the slot it hangs in), and a field that still names the dying object has it destroyed twice."""
+    ctx.rule(rule, "outside the destructor an owning pointer never destroys or frees the object through its own pointer field: the "
+             "field is redirected first and the old object is released through a local (a destructor that re-enters the holder "
+             "must not find the dying object still owned)", len(classes))
+    for cls in classes:
+        recs = recs_of(unit, cls)
+        if not recs:
+            raise AnalysisBroken("anchor vanished: record %s" % cls)
+        for rec in recs[:1]:
+            ptrf = {fl["n"] for fl in rec["fields"] if fl.get("ptr")}
+            fns = [f for f in cls_fns(unit, rec["qn"]) if f.kind not in ("dtor", "ctor")]
+            n_rel = 0
+            for f in fns:
+                rel = []
+                for n in f.events():
+                    o = is_dtor_call(n)
+                    if o is not None:
+                        rel.append((n, o, "destroyed"))
+                for n in free_calls(f):
+                    if n.args:
+                        rel.append((n, n.args[0], "freed"))
+                if not rel:
+                    continue
+                n_rel += 1
+                bad = []
+                for n, o, what in rel:
+                    po = path(o) or path(std_unwrap(o))
+                    if po and po[0] == "this" and len(po) >= 2 and po[1] in ptrf:
+                        bad.append("the object is %s through this->%s at %s" % (what, po[1], n.loc))
+                ctx.inst(rule, f.sig, not bad, f.loc, "; ".join(sorted(set(bad))[:2]) + ": the holder still owns it while ~T runs" if bad else
+                         "%d release(s), each through a local taken from the field" % len(rel), f)
+            if not n_rel:
+                raise AnalysisBroken("anchor vanished: no member of %s besides the destructor releases the object" % cls)
